@@ -75,7 +75,7 @@ const verifUniverseSize = 2
 // verifWorld: an arbitrary database satisfying the invariant, one bucket
 // handle, nColls collections, the process-wide HLC with an arbitrary clock.
 func verifWorld(inMemory bool, nColls, nDocs int) *verifEnv {
-	hlc = &HybridLogicalClock{clock: verifClock{}, highestTime: verifU64("hlc.highest")}
+	hlc = &HybridLogicalClock{clock: verifBoundedClock{}, highestTime: verifU64("hlc.highest")}
 	U := verifXattrUniverse(verifUniverseSize)
 	db := verifNewDB("b0", inMemory, nColls, nDocs, 1)
 	env := &verifEnv{db: db, b: verifBucketOn(db, "b0", inMemory), U: U}
@@ -91,7 +91,19 @@ func verifWorld(inMemory bool, nColls, nDocs int) *verifEnv {
 	for i := 0; i < verifDocSlots(db); i++ {
 		d := verifDocSlot(db, i)
 		verifAssume(verifImplies(d.Present, invDoc(d)))
+		verifAssume(d.Rev < 1<<62) // bound (not part of the invariant): fewer than 2^62 mutations of one key
 		verifAssume(verifImplies(d.Present, d.Cas <= verifCollLastCas(db, d.Coll)))
 	}
 	return env
+}
+
+// verifBoundedClock: arbitrary readings (no monotonicity) below 2^62 ns
+// (year 2116); a reading at or above 2^63 cannot be stored by the SQL driver
+// and makes every write fail, which is outside these claims (stated).
+type verifBoundedClock struct{}
+
+func (verifBoundedClock) getTime() uint64 {
+	t := verifU64("clk")
+	verifAssume(t < 1<<62)
+	return t
 }
